@@ -160,7 +160,7 @@ def run(s):
     s.oblige("C05.axial_strains_without_lattice_block_are_ones", strains_none, [FM + "get_axial_strains"])
 
     def strains_lattice():
-        for n in (5, 8):
+        for n in (2, 3, 5, 8):
             atoms = [[Sc(z3.Real("a%d_%d" % (i, k))) for k in range(n)] for i in range(3)]
             calls = []
 
@@ -187,7 +187,7 @@ def run(s):
                         r.detail = "ntv=%d: strain[%d,%d] is not D_i/sum_j D_j with D the centred difference quotient of the fitted axis lengths | %s" % (n, k, i, r.detail)
                         r.witness_id = "axial-strain"
                         return r
-        return core.proved("z3", "ntv in {5, 8}: e[k,i] * sum_j D_j[k] = D_i[k], D_i[k] = (a_i[k+] - a_i[k-]) / (a_i[k+] + a_i[k-]) with clamped neighbours; column i feeds axis i "
+        return core.proved("z3", "ntv in {2, 3, 5, 8}: e[k,i] * sum_j D_j[k] = D_i[k], D_i[k] = (a_i[k+] - a_i[k-]) / (a_i[k+] + a_i[k-]) with clamped neighbours; column i feeds axis i "
                                  "(size-bounded, value-unbounded)")
     s.oblige("C05.axial_strains_from_lattice_block", strains_lattice, [FM + "get_axial_strains"])
 
